@@ -18,6 +18,7 @@ RULE = ('the instruction table of C04 (integer core) plus MMX/SSE register and m
         'string operands, and every mm/xmm register named by the instruction (+2 others). Reported sets: union of get_r(mem_read=True) and of get_w() over get_instr_expr, sub-registers '
         'mapped to their parent, memory cells to byte intervals evaluated on the pre-state. A case = (instance, base state); non-trivial = at least one dependency or one modified location '
         'was witnessed on the CPU.')
+RULE += ' Round 6: the 16-bit-addressed and address-size-prefixed instances of C04; x87: 159 forms (register-register both directions, popping, memory and integer operands, pushes, constants, compares, fcomi, fcmovcc, stack rotation) executed with the x87 stack loaded with finite values (perturbing ST(i) one at a time; written = the CPU changed a register that is tagged valid afterwards; C0..C3 are outputs of the compare family only).'
 ASSUMPTIONS = ['the host CPU under ptrace single-step is the reference; faulting steps are excluded', 'only architecturally defined outputs witness a read dependency (undefined flags are ignored as outputs); '
                'every flag the CPU changes counts as written', 'x87 registers hold finite normal values with all exceptions masked (the default control word); TOP is 0 initially; a register tagged empty after the step is not an output']
 
